@@ -103,19 +103,27 @@ class Replayer:
                 "leaves": self.B.leaves(prog, (), tr.get_choices())}
 
     def recorded_arg(self, prog, tr):
-        """the model argument recorded in a top-level Fn trace (None when the trace type does not record (args, kwargs))."""
-        if self.B.kind(prog) != "fn":
+        """the model argument recorded in a top-level Fn / Cond / Scan trace, as a spec value
+        (None when the trace type does not record (args, kwargs): vectorised traces)."""
+        k = self.B.kind(prog)
+        if k not in ("fn", "cond", "scan"):
             return None
         try:
             a = tr.get_args()
-            if isinstance(a, tuple) and len(a) == 2 and isinstance(a[1], dict):
+        except Exception as ex:
+            return f"<get_args raised {type(ex).__name__}>"
+        if not (isinstance(a, tuple) and len(a) == 2 and isinstance(a[1], dict)):
+            return f"<get_args is not an (args, kwargs) pair: {type(a).__name__} of length {len(a) if hasattr(a, '__len__') else '?'}>"
+        try:
+            if k == "fn":
                 if "arg" in a[1]:
                     return self.B.ret_to_spec(a[1]["arg"])
-                if len(a[0]) == 2:
-                    return self.B.ret_to_spec(a[0][1])
-        except Exception:
-            return None
-        return None
+                return self.B.ret_to_spec(a[0][1]) if len(a[0]) == 2 else None
+            if k == "cond":                      # (check, script, arg)
+                return (int(bool(np.asarray(a[0][0]))), self.B.ret_to_spec(a[0][2]))
+            return (self.B.ret_to_spec(a[0][0]), self.B.ret_to_spec(a[0][1][1]))      # scan: (carry, (script, xs))
+        except Exception as ex:
+            return f"<recorded arguments have an unexpected structure: {type(ex).__name__}>"
 
     # ------------------------------------------------------------------------------------------------
     def replay_state(self, prog, hist):
@@ -219,6 +227,18 @@ class Replayer:
             for p in cl:
                 if dl.get(p) != pobs["leaves"][p]:
                     extra["bad"].append(f"discard at overwritten address {'/'.join(p)} is {dl.get(p)}, old visible value was {pobs['leaves'][p]}")
+            if op["arg"] == parg and self.B.kind(prog) in ("fn", "cond", "scan") and not extra["bad"]:
+                # Trace.update with the arguments recorded in the trace (the convenience path mh / mala / hmc rely on too)
+                try:
+                    ctr, cw, _ = self._run(("updc", prog), lambda t, c: t.update(c), ptr, cons)
+                    if quantise(cw) != quantise(w):
+                        extra["bad"].append(f"trace.update(constraints) (recorded arguments) has weight {quantise(cw)}, gf.update with the same arguments {quantise(w)}")
+                    elif self.B.leaves(prog, (), ctr.get_choices()) != self.B.leaves(prog, (), tr.get_choices()):
+                        extra["bad"].append("trace.update(constraints) (recorded arguments) returns other choices than gf.update with the same arguments")
+                except QuantError:
+                    raise
+                except Exception as ex:
+                    extra["bad"].append(f"trace.update(constraints) with the recorded arguments raised {type(ex).__name__}: {str(ex).splitlines()[0][:120] if str(ex) else ''}")
             if self.check_roundtrip and not extra["bad"]:
                 oargs = self._cargs(prog, {}, parg)
                 btr, bw, _ = self._run(("upd", prog), gf.update, tr, d, *oargs)
